@@ -73,9 +73,16 @@ MUTANTS = [
     ('N8', P + 'clustering/hierarchical.py', 'def fit(self, series):', 'for c in range(i2 + 1, len(series)):', 'for c in range(i2 + 2, len(series)):', [('C15', 'R-PATH')]),
     ('N9', P + 'dtw.py', 'def distances_array_to_matrix', '        dists_matrix.T[idxs] = dists\n', '', [('C06', 'R-ITER'), ('C10', 'R-ITER')]),
     ('N10', C + 'dd_dtw.c', 'seq_t dtw_distance_ndim(seq_t *s1', 'tempv = dtw[curidx] + penalty;\n            if (tempv < minv) {\n                minv = tempv;\n            }\n            curidx = i1 * length + j - skip;', 'tempv = dtw[curidx];\n            if (tempv < minv) {\n                minv = tempv;\n            }\n            curidx = i1 * length + j - skip;', [('C02', 'R-REC'), ('C10', 'R-REC')]),
+    ('N11', P + 'subsequence/localconcurrences.py', 'def kbest_matches(self', 'wp[xx, yy] = -abs(wp[xx, yy])  # ma.masked\n                        yy = y + 1', 'wp[xx, yy] = -wp[xx, yy]  # ma.masked\n                        yy = y + 1', [('C18', 'R-DUAL')]),
+    ('N12', P + 'subsequence/localconcurrences.py', 'def _reset_wp_mask', '            wp.data[used] = -wp.data[used]\n', '', [('C18', 'R-DUAL')]),
+    ('N13', P + 'alignment.py', 'def make_substitution_fn', '    _unwrap.gap = gap\n', '', [('C17', 'R-TAB')]),
+    ('N14', P + 'dp.py', 'def dp(', 'last_under_max_dist == -1 and c > 0:', 'last_under_max_dist == -1:', [('C17', 'R-PRUNE')]),
+    ('N15', P + 'similarity.py', 'def squash', 'Xz = 1 - np.exp(x0 / r)', 'Xz = 1 - np.exp(-x0 / r)', [('C19', 'R-DUAL')]),
 ]
 
 # behaviour-preserving twins: (id, file, anchor, old, new, [properties that must stay at exit 0])
+
+
 TWINS = [
     ('T1', C + 'dd_dtw.c', 'seq_t dtw_distance(seq_t *s1', 'maxj = (i - dl_window) * (i > dl_window);', 'maxj = i;\n        if (maxj > dl_window) {\n            maxj -= dl_window;\n        } else {\n            maxj = 0;\n        }', ['C02', 'C03', 'C08', 'C10']),
     ('T2', C + 'dd_dtw.c', 'seq_t dtw_distance(seq_t *s1', 'idx_t length = MIN(l2+1, ldiff + 2*window + 1);', 'idx_t length = ldiff + 2*window + 1;\n    if (l2 + 1 < length) { length = l2 + 1; }', ['C02', 'C08']),
@@ -88,6 +95,7 @@ TWINS = [
     ('T10', P + 'dtw.py', 'def distance(s1, s2', 'for ii in range(i1*length, i1*length+length):', 'for ii in range(length*i1, length*i1 + length):', ['C01', 'C10']),
     ('T11', P + 'similarity.py', 'def squash', 'Xz = 1 / (1 + np.power(base, -(0 - x0) / r))', 'Xz = 1 / (1 + np.power(base, x0 / r))', ['C19']),
     ('T12', P + 'dp.py', 'def dp(', 'last_under_max_dist == -1 and c > 0:', 'last_under_max_dist == -1 and c >= 1:', ['C17']),
+    ('T13', P + 'subsequence/localconcurrences.py', 'def kbest_matches(self', 'wp[xx, yy] = -abs(wp[xx, yy])  # ma.masked\n                        yy = y + 1', 'wp[xx, yy] = -np.abs(wp[xx, yy])\n                        yy = y + 1', ['C18']),
     ('T8', P + 'clustering/hierarchical.py', 'def fit(self, series):', "        logger.debug('Merging patterns')\n", "        logger.debug('Merging the patterns')\n\n", ['C15']),
 ]
 
